@@ -246,13 +246,14 @@ func wModelNames(w WSpec) []string {
 }
 
 type wJob struct {
-	W      WSpec
-	K      int
-	At     *callPoint
-	Obs    wObs
-	Killed bool
-	Fin    bool
-	Err    string
+	NoModel bool
+	W       WSpec
+	K       int
+	At      *callPoint
+	Obs     wObs
+	Killed  bool
+	Fin     bool
+	Err     string
 }
 
 func partW(c *lib.Ctx, base string) func() {
@@ -309,6 +310,7 @@ func partW(c *lib.Ctx, base string) func() {
 			for _, cp := range calls {
 				names = append(names, cp.Name)
 			}
+			noModel := false
 			if strings.Join(names, ",") != strings.Join(wModelNames(cfgs[i]), ",") {
 				// the syscall sequence of WriteFile is not the model's step list: report it as a disagreement
 				i, names := i, names
@@ -316,10 +318,10 @@ func partW(c *lib.Ctx, base string) func() {
 					c.Case(lib.App("CWrite", lib.Bool(cfgs[i].DirExists), "None", "[]", "0%N", lib.Nat(999), "None", "None"),
 						map[string]any{"kind": "writefile", "w": cfgs[i], "syscalls": names, "model": wModelNames(cfgs[i])}, fmt.Sprint("wseq", i), true)
 				})
-				continue
+				noModel = true
 			}
 			for k := 0; k <= len(calls); k++ {
-				j := &wJob{W: cfgs[i], K: k}
+				j := &wJob{W: cfgs[i], K: k, NoModel: noModel}
 				j.W.Dir = filepath.Join(base, fmt.Sprintf("w%d_%d", i, k))
 				if k < len(calls) {
 					cp := calls[k]
@@ -1342,7 +1344,7 @@ type corpusWitness struct {
 	FixedBy    string     `json:"fixed_by"`
 	Spec       *e2e.Spec  `json:"spec"`
 	Jobs       []crashJob `json:"jobs"`         // the history in terms of the code as it is now
-	PreFixJobs []crashJob `json:"pre_fix_jobs"` // the original kill points (run in the thorough tier; no longer reachable)
+	PreFixJobs []crashJob `json:"pre_fix_jobs"` // the original kill points (no longer reachable while the fix is in place)
 }
 
 func loadCorpus(i int) *corpusWitness {
@@ -1412,9 +1414,7 @@ func partP(c *lib.Ctx, base string) {
 				if w := loadCorpus(adv); w != nil {
 					spec, corpusJobs = w.Spec, w.Jobs
 					c.Hist("corpus", w.Class)
-					if c.Thor {
-						corpusJobs = append(corpusJobs, w.PreFixJobs...)
-					}
+					corpusJobs = append(corpusJobs, w.PreFixJobs...) // the original kill points: unreachable while the fix is in place
 				}
 			}
 			tis := buildable(spec)
